@@ -64,7 +64,7 @@ func runC20(c *Ctx) {
 	var kd []string
 	answering := 0
 	for _, addr := range realms["CORP.TEST"] {
-		tb := []string{"reply-close", "reply-open", "partial", "partial-close", "close", "silent", "refuse", "blackhole"}[c.T.Choose(8)]
+		tb := []string{"reply-close", "reply-open", "partial", "partial-close", "close", "silent", "refuse", "blackhole", "drip"}[c.T.Choose(9)]
 		ub := []string{"reply-open", "silent", "refuse", "refuse"}[c.T.Choose(4)]
 		if tb == "blackhole" {
 			// connection attempts get no answer at all (packets dropped on the way)
@@ -72,10 +72,13 @@ func runC20(c *Ctx) {
 		} else if tb != "refuse" {
 			rep := c.T.Bytes(1+c.T.Choose(2000), 0x71)
 			reply := append(binary.BigEndian.AppendUint32(nil, uint32(len(rep))), rep...)
-			kdcs = append(kdcs, c.W.AddKDC("tcp", addr, tb, reply))
+			kd1 := c.W.AddKDC("tcp", addr, tb, reply)
+			// (a dripped reply takes 6-40 s in all: longer than the proxy waits)
+			kd1.DripGap = time.Duration(1+c.T.Choose(4)) * time.Second
+			kdcs = append(kdcs, kd1)
 		}
 		if ub != "refuse" {
-			kdcs = append(kdcs, c.W.AddKDC("udp", addr, ub, c.T.Bytes(1+c.T.Choose(1200), 0x72)))
+			kdcs = append(kdcs, c.W.AddKDC("udp", addr, ub, c.T.Bytes([]int{1 + c.T.Choose(1200), 1 + c.T.Choose(1200), 4096, 4097, 9000, 30000}[c.T.Choose(6)], 0x72)))
 		}
 		if strings.HasPrefix(tb, "reply") {
 			answering++
